@@ -413,7 +413,7 @@ func (c *checker) funcBatch(vs []vector, base int) {
 		}
 	}
 	if base == 0 && len(vs) > 0 {
-		rep.Sample(map[string]interface{}{"kind": "func", "shape": vs[len(vs)/2].key(), "llvm_numbering": vs[len(vs)/2].Ids,
+		rep.Sample(map[string]interface{}{"kind": "func", "shape": vs[len(vs)/2].key(), "form": vs[len(vs)/2].Form, "llvm_numbering": vs[len(vs)/2].Ids,
 			"explicit_text": plans[len(vs)/2].render(modeExplicit)})
 	}
 }
@@ -1155,14 +1155,18 @@ func Run(tier, replay string) {
 		vs = append(vs, got...)
 		t.Cleanup()
 	}
+	allForms := `{"short", "long", "longva", "bitcast", "asm", "tail", "addrspace"}`
+	otherForms := `{"long", "longva", "bitcast", "asm", "tail", "addrspace"}`
 	if tier == "quick" {
-		// all module shapes <= 4; all one-block functions with <= 2 instructions; random deeper ones
+		// all module shapes <= 4; all one-block functions with <= 2 instructions (short callee form);
+		// all one-block functions with <= 1 instruction in every other callee form; random deeper ones
 		emit("exhaustive", map[string]string{"MaxBlocks": "1", "MaxInsts": "2"}, "", 0)
-		emit("random", map[string]string{"Kinds": `{"func"}`, "MaxBlocks": "3", "MaxInsts": "2"}, "num=8", 5)
+		emit("forms", map[string]string{"Kinds": `{"func"}`, "MaxBlocks": "1", "MaxInsts": "1", "Forms": otherForms}, "", 0)
+		emit("random", map[string]string{"Kinds": `{"func"}`, "MaxBlocks": "3", "MaxInsts": "2", "Forms": allForms}, "num=14", 5)
 	} else {
-		emit("exhaustive", map[string]string{"MaxBlocks": "2", "MaxInsts": "1"}, "", 0)
-		emit("exhaustive1", map[string]string{"Kinds": `{"func"}`, "MaxBlocks": "1", "MaxInsts": "2"}, "", 0)
-		emit("random", map[string]string{"Kinds": `{"func"}`, "MaxBlocks": "3", "MaxInsts": "2"}, "num=60", 5)
+		emit("exhaustive", map[string]string{"MaxBlocks": "2", "MaxInsts": "1", "Forms": `{"short", "long"}`}, "", 0)
+		emit("exhaustive1", map[string]string{"Kinds": `{"func"}`, "MaxBlocks": "1", "MaxInsts": "2", "Forms": allForms}, "", 0)
+		emit("random", map[string]string{"Kinds": `{"func"}`, "MaxBlocks": "3", "MaxInsts": "2", "Forms": allForms}, "num=60", 5)
 	}
 	// de-duplicate (simulation repeats shapes)
 	seen := map[string]bool{}
